@@ -25,7 +25,8 @@ from vermouth import ffinput, parser_utils, map_input, map_parser
 from vermouth.ffinput import read_ff, FFDirector
 from vermouth.gmx.itp_read import read_itp, ITPDirector
 from vermouth.forcefield import ForceField
-from vermouth.molecule import Link, Choice
+from vermouth.molecule import Link, Choice, NotDefinedOrNot, LinkParameterEffector
+import c13_mapping
 quiet_vermouth_logs()
 
 KNOWN_IDS = {k['id'] for k in chk.known if k.get('status') == 'known'}
@@ -56,8 +57,22 @@ def repr_j(v):
     if v is None:
         return 'n'
     if isinstance(v, Choice):
-        return 's' + '|'.join(v.value)
+        return 'c' + '|'.join(v.value)
+    if isinstance(v, NotDefinedOrNot):
+        return 'p' + json.dumps(v.value, separators=(',', ':'), sort_keys=True)
     return 'o' + json.dumps(v, separators=(',', ':'), sort_keys=True, default=repr)
+
+
+_EFFECTOR_NAMES = {cls: name for name, cls in ffinput.PARAMETER_EFFECTORS.items()}
+
+
+def canon_param(p):
+    """parameters are kept as written: strings verbatim, effectors re-rendered from the loaded object"""
+    if isinstance(p, str):
+        return p
+    if isinstance(p, LinkParameterEffector):
+        return '%s(%s%s)' % (_EFFECTOR_NAMES[type(p)], ','.join(p.keys), '' if p.format is None else '|' + p.format)
+    return repr(p)
 
 
 def canon_attrs(d):
@@ -68,7 +83,7 @@ def canon_inters(idict):
     out = []
     for sect in sorted(idict):
         for it in idict[sect]:
-            out.append([sect, [str(a) for a in it.atoms], [p if isinstance(p, str) else repr(p) for p in it.parameters]])
+            out.append([sect, [str(a) for a in it.atoms], [canon_param(p) for p in it.parameters]])
     return out
 
 
@@ -155,6 +170,8 @@ def enc_jv(v):
         return [1, v]
     if v is None:
         return [3]
+    if isinstance(v, Choice):
+        return [5, list(v.value)]
     return [4, json.dumps(v, separators=(',', ':'))]
 
 
@@ -425,6 +442,11 @@ def prefix_of(order):
     return order
 
 
+def as_loaded(attrs):
+    """what an attribute dictionary written in the file is declared to mean: 'a|b' is a choice"""
+    return {k: (Choice(v.split('|')) if isinstance(v, str) and '|' in v else v) for k, v in attrs.items()}
+
+
 class Gen:
     """Builds the text of a .ff file together with what it declares (the expectation)."""
 
@@ -563,7 +585,7 @@ class Gen:
         if attrs:
             text += r.choice([' ', '']) + json.dumps(attrs)
         used.pop('order', None)
-        return text, used
+        return text, as_loaded(used)
 
     def link_like(self, kind):
         r = self.rng
@@ -574,9 +596,18 @@ class Gen:
         name = None
         if kind == 'link':
             self.header('link')
-            if r.random() < 0.4:
+            k = r.random()
+            if k < 0.3:
                 all_nodes['resname'] = r.choice(['ALA', 'GLY', 'L%d' % self.serial])
                 self.emit('resname %s' % json.dumps(all_nodes['resname']))
+            elif k < 0.45:
+                names = r.sample(['ALA', 'GLY', 'LYS', 'SER'], r.randint(2, 3))
+                all_nodes['resname'] = Choice(names)
+                self.emit('resname %s' % json.dumps('|'.join(names)))
+            elif k < 0.55:
+                v = r.choice(['PRO', 1, None])
+                all_nodes['resname'] = NotDefinedOrNot(v)
+                self.emit('resname not(%s)' % json.dumps(v))
             orders = [0, 0, 1, 1, -1, 2, '>', '>>', '<', '*']
         else:
             self.header('modification')
@@ -588,6 +619,8 @@ class Gen:
         for b in bases:
             o = r.choice(orders)
             extra = {'atype': r.choice(['P5', 'Qd'])} if r.random() < 0.3 else {}
+            if r.random() < 0.15:
+                extra['secstruc'] = r.choice(['H|1', 'E|B|S'])
             abstract.append((b, o, extra))
         # the same base may appear with two different orders
         if kind == 'link' and r.random() < 0.5:
@@ -636,7 +669,7 @@ class Gen:
                     key = pre + b
                     nodes.setdefault(key, {})
                     self.emit('%s %s' % (text, json.dumps(attrs)), linkatom=True)
-                    used = dict(attrs)
+                    used = as_loaded(attrs)
                     used.pop('order', None)
                     touch(key, atom, used, defaults={'PTM_atom': False} if kind == 'modification' else None)
             elif k < 0.3 and kind == 'link' and self.rich:
@@ -669,6 +702,10 @@ class Gen:
                         texts.append(text)
                         keys.append(key)
                     written, expected = self.params(sect)
+                    if r.random() < 0.15:
+                        eff = r.choice(['dist(BB,+BB)', 'angle(BB,+BB,++BB)', 'dihedral(A,B,C,D|.1f)',
+                                        'dihphase(A,B,C,D)', 'dist(BB,SC1|.3f)'])
+                        written, expected = written + [eff], expected + [eff]
                     delim = ['--'] if (n is None or r.random() < 0.4) else []
                     self.emit(' '.join(texts + delim + written + self.maybe_meta()),
                               linkinter=sect, natoms=n, nref=kk, delim=bool(delim))
@@ -719,7 +756,7 @@ class Gen:
 
 
 FAULTS = ['unknown_section', 'undefined_atom', 'duplicate_atom', 'unbalanced_braces', 'order_conflict', 'arity',
-          'index_zero']
+          'index_zero', 'effector']
 
 
 def inject(gen, fault, rng):
@@ -747,6 +784,17 @@ def inject(gen, fault, rng):
         j = rng.randrange(tag['nref'])
         toks[j] = rng.choice(['ZZ9', str(tag['natoms_block'] + rng.randint(1, 3)), 'Q'])
         L[i] = (' '.join(toks), tag)
+        return [t for t, _ in L]
+    if fault == 'effector':
+        # unknown parameter effector / wrong number of keys / two formats
+        c = idx(lambda t, tag: 'linkinter' in tag)
+        if not c:
+            return None
+        i = rng.choice(c)
+        t, tag = L[i]
+        L[i] = (t + ' ' + rng.choice(['foo(A,B)', 'dist(A)', 'angle(A,B)', 'dist(A,B|.1f|x)', 'dihedral(A,B,C)']), tag)
+        if '{' in t.split(' ')[-1]:
+            return None
         return [t for t, _ in L]
     if fault == 'index_zero':
         # known finding F-C13-4: the (1-based) atom index 0 in a block interaction
@@ -1375,14 +1423,8 @@ def run_shipped():
         meta.append((path, im, errs))
     for (path, im, errs), mo in zip(meta, ask(lines_p)):
         rel = os.path.relpath(path, data)
-        if mo != im:
-            # the Lean reader does not interpret predicates / parameter effectors: compare only when it can
-            text = open(path).read()
-            if re.search(r'\w\(', text) or '|' in text:
-                chk.count('shipped_model_skipped')
-                mo = None
         chk.count('shipped_ff')
-        chk.case('shipped-' + rel, 'ff-file ' + rel, clip(im, 200) if mo is None else im, mo, errs, True)
+        chk.case('shipped-' + rel, 'ff-file ' + rel, im, mo, errs, True)
     # mappings: every [ molecule ] of a .map file and every [ block ]/[ modification ] of a .mapping yields one entry
     import vermouth.forcefield as vff
     known = vff.find_force_fields(os.path.join(data, 'force_fields'))
@@ -1424,6 +1466,7 @@ run_ffdisp()
 run_ff()
 run_itp()
 run_maps()
+c13_mapping.run_mapping(chk, ask)
 if chk.thorough:
     run_shipped()
 chk.extra['pending_findings'] = PENDING
